@@ -98,13 +98,20 @@ def safe_judge(mod, case, excludes):
             raise HarnessError(f"exclude predicate {fid} raised {ex!r}")
         if hit:
             return {"status": "excluded", "nontrivial": False, "features": ["excluded:" + fid]}
+    from vlib import progeval
+
+    limit = int(os.environ.get("VERIF_CASE_TIMEOUT") or getattr(mod, "CASE_TIMEOUT", 120))
     try:
-        res = mod.judge(case)
+        with progeval.time_limit(limit):
+            res = mod.judge(case)
+    except progeval.Timeout:
+        # a case that exhausts its time budget is inconclusive, never a verdict
+        return {"status": "skip", "nontrivial": False, "features": ["case-timeout"]}
     except HarnessError:
         raise
     except Exception:
         raise HarnessError("judge raised:\n" + traceback.format_exc() + "\ncase=" + canon(case)[:2000])
-    if res.get("status") not in ("ok", "violation", "skip", "rejected"):
+    if res.get("status") not in ("ok", "violation", "skip", "rejected", "excluded"):
         raise HarnessError(f"bad verdict {res!r}")
     return res
 
@@ -232,6 +239,64 @@ def _shrink_worker(args):
         return {"kind": kind, "case": fallback_case, "detail": traceback.format_exc()[-500:], "shrunk": False}
 
 
+class _Pool:
+    """map() over worker processes with a watchdog: a dead worker or a stall becomes a harness error
+    (exit 2) instead of a hang.  Thin wrapper over concurrent.futures.ProcessPoolExecutor."""
+
+    STALL_S = int(os.environ.get("VERIF_STALL_S", "2400"))
+
+    def __init__(self, ctx, n):
+        from concurrent.futures import ProcessPoolExecutor
+
+        self.ex = ProcessPoolExecutor(max_workers=n, mp_context=ctx)
+
+    def __enter__(self):
+        return self
+
+    def __exit__(self, *a):
+        procs = list(getattr(self.ex, "_processes", {}).values())
+        self.ex.shutdown(wait=False, cancel_futures=True)
+        # do not rely on the executor's exit handshake (it has been seen to block forever with
+        # idle workers): the work is done or abandoned at this point, terminate the workers
+        for p_ in procs:
+            try:
+                p_.terminate()
+            except Exception:
+                pass
+        return False
+
+    def map(self, fn, items, chunksize=1):
+        from concurrent.futures import FIRST_COMPLETED, wait
+        from concurrent.futures.process import BrokenProcessPool
+
+        items = list(items)
+        if chunksize > 1:
+            chunks = [items[i : i + chunksize] for i in range(0, len(items), chunksize)]
+            futs = [self.ex.submit(_run_chunk, fn, c) for c in chunks]
+        else:
+            futs = [self.ex.submit(fn, it) for it in items]
+        pending = set(futs)
+        while pending:
+            done, pending = wait(pending, timeout=self.STALL_S, return_when=FIRST_COMPLETED)
+            if not done:
+                raise HarnessError(f"no shard finished within {self.STALL_S}s ({len(pending)} pending): worker pool stalled")
+        out = []
+        for f in futs:
+            try:
+                r = f.result()
+            except BrokenProcessPool as e:
+                raise HarnessError(f"a worker process died: {e!r}")
+            if chunksize > 1:
+                out.extend(r)
+            else:
+                out.append(r)
+        return out
+
+
+def _run_chunk(fn, chunk):
+    return [fn(x) for x in chunk]
+
+
 def write_replay(check_id, name, case, kind, detail, directory=None):
     d = directory or os.path.join(OUT_DIR, check_id)
     os.makedirs(d, exist_ok=True)
@@ -317,7 +382,11 @@ def run_check(check_id, tier, seed, replay=None):
     total = int(os.environ.get("VERIF_BUDGET") or mod.budget(tier))
     per = max(1, (total + nshards - 1) // nshards)
 
-    ctx = mp.get_context("fork")
+    ctx = mp.get_context("forkserver")
+    try:
+        ctx.set_forkserver_preload(["vlib.runner", "hypothesis"])
+    except Exception:
+        pass
     agg = {
         "evaluations": 0,
         "status": Counter(),
@@ -330,7 +399,7 @@ def run_check(check_id, tier, seed, replay=None):
     exhaustive_info = None
     found = {}  # kind -> (shard, case, detail)
 
-    with ctx.Pool(min(nshards, os.cpu_count() or 1)) as pool:
+    with _Pool(ctx, min(nshards, os.cpu_count() or 1)) as pool:
         # enumerated part first (may use the pool)
         if hasattr(mod, "exhaustive"):
             try:
